@@ -34,6 +34,7 @@ META = {
 
 def stage2(ctx, gtirb):
     """Decode the Java re-encodings with the real decoder."""
+    codecmon.private_serialization(gtirb, ctx)
     mon = codecmon.CodecMonitor(ctx, gtirb)
     n = 0
     for i, line in enumerate(open(ctx.params["java_stage2_file"],
